@@ -319,6 +319,11 @@ func c08ladder(unit int64, full bool) []string {
 			out = append(out, s)
 		}
 	}
+	// counts written with leading zeros are decimal all the same (010 is ten, 08 is eight)
+	out = append(out, "010", "08")
+	if full {
+		out = append(out, "0100", "00", "007", "0"+q.String())
+	}
 	return out
 }
 
